@@ -38,82 +38,91 @@ def check_T1(ctx, facts):
 
 
 def check_R(ctx, facts):
-    """return flag = state change, in insert_with_source / delete_with_source"""
+    """return flag = state change, in insert_with_source / delete_with_source: over the body and the closures that capture the
+    flag, the flag is set to true exactly where the INCOMING timestamp is stored (map insert, write through the slot
+    reference, or_insert* value); restoring a looked-up value is not a change."""
+    import analysis as _an
     for name in ('insert_with_source', 'delete_with_source'):
         body = facts.body(OS + name)
         if body is None:
             ctx.bad('C04.R', name, '', 'not found')
             continue
-        names = {v: k for k, v in body.local_names().items()}
-        # the flag: the bool local returned on every path (copied into _0)
-        import analysis as _an
         cands = [l for l in _an._return_locals(body) if l != 0 and body.local_ty(l) == 'bool' and l in body.local_names()]
         flag = cands[0] if len(cands) == 1 else None
         if flag is None:
-            ctx.bad('C04.R', name + '|flag', site(body), 'returned flag local not found (unrecognised idiom, fail closed)')
+            # the function may return a computed boolean instead of a flag variable: every `true` must then come from a
+            # comparison against the slot's previous content and be co-located with a store of the incoming stamp
+            ctx.bad('C04.R', name + '|flag', site(body), 'the returned change flag is not a single boolean variable set next to the stores '
+                    '(unrecognised idiom, fail closed): cannot relate "returns true" to "the view changed"')
             continue
-        # writes to the flag in this body must be the constant false initialiser only
+        flow = Flow(body, skip_deref_writes=True)
+        ts_param = 4
+        sites_total = 0
+        problems = []
+        inits = []
+        # ---- the function body itself
+        sets, stores = [], []
         for b, j, s in body.assigns():
             if s['lhs']['l'] == flag and not s['lhs']['p']:
-                c = const_int(s['rv'].get('op')) if s['rv']['k'] == 'use' else None
-                ctx.ob('C04.R', '%s|init' % name, c == 0, site(body, s['cs']),
-                       'flag initialised to %s in the outer body' % ('false' if c == 0 else 'a non-false value: reports a change that may not happen'))
-        # closures capturing &mut flag
-        n_sites = 0
+                v = const_int(s['rv'].get('op')) if s['rv']['k'] == 'use' else None
+                if v == 1:
+                    sets.append((b, s['cs']))
+                elif v == 0:
+                    inits.append((b, s['cs']))
+                else:
+                    problems.append('flag written with a non-constant value at line %s' % s['cs'])
+        for b, t in body.calls():
+            n = cname(t)
+            if n and re.match(r'^(alloc::collections::btree::map::BTreeMap|std::collections::hash::map::HashMap)::insert$', n):
+                vl = op_local(t['args'][-1])
+                if vl is not None and lww.is_ts(body, vl):
+                    vb = flow.backward([vl])
+                    from_lookup = any(tt['dest']['l'] in vb for _b, tt in body.calls() if cname(tt) and lww.LOOKUPS.match(cname(tt)))
+                    if ts_param in vb and not from_lookup:
+                        stores.append((b, t['cs']))
+        groups = [(body, sets, stores, 'body')]
+        # ---- closures that capture the flag
         for blk, s, cdef, ops in closure_aggregates(body):
             cb = facts.bodies.get(cdef)
             if cb is None:
                 continue
-            # which upvar index is the flag
             idx = None
             for i, o in enumerate(ops):
                 l = op_local(o)
-                if l is not None and flag in Flow(body).backward([l]):
+                if l is not None and flag in referent_roots(body, l) | {l} and (flag in Flow(body).backward([l])):
                     idx = i
             if idx is None:
                 continue
-            # blocks that set the flag true / blocks that store the timestamp
-            set_blocks, store_blocks = [], []
-            cflow = Flow(cb)
+            csets, cstores = [], []
             for b2, j2, s2 in cb.assigns():
                 lhs = s2['lhs']
                 if lhs['l'] == 1 and any(isinstance(e, dict) and e.get('f') == idx for e in lhs['p']) and lhs['p'][-1] == '*':
-                    set_blocks.append((b2, const_int(s2['rv'].get('op')) if s2['rv']['k'] == 'use' else None, s2['cs']))
+                    v = const_int(s2['rv'].get('op')) if s2['rv']['k'] == 'use' else None
+                    if v == 1:
+                        csets.append((b2, s2['cs']))
+                    else:
+                        problems.append('flag written with a non-true value in %s' % cdef.rsplit('::', 1)[1])
                 elif lhs['p'] and lhs['p'][0] == '*' and lww.is_ts(cb, lhs['l']):
-                    store_blocks.append((b2, s2['cs']))
-            is_or_insert = cb.argc == 1  # FnOnce() -> V : the returned value is the store
-            cname_ = cdef.rsplit('::', 1)[1]
-            key = '%s|%s' % (name, cname_)
-            n_sites += 1
-            if is_or_insert:
-                # every path to return sets the flag true
-                sb = [b2 for b2, v, _l in set_blocks if v == 1]
-                good = bool(sb) and cb.must_pass([0], sb, cb.return_blocks())
-                ctx.ob('C04.R', key, good, site(cb),
-                       'or_insert_with closure (always stores) %s the flag on every path' % ('sets' if good else 'does NOT set'))
-            else:
-                good = True
-                why = []
-                S = [sb2 for sb2, _ in store_blocks]
-                F = [b2 for b2, _v, _ in set_blocks]
-                rets = cb.return_blocks()
-                for b2, v, l2 in set_blocks:
-                    if v != 1:
-                        good = False
-                        why.append('flag written with a non-true value')
-                    if not (b2 in S or any(cb.dominates(x, b2) for x in S) or cb.must_pass([b2], S, rets)):
-                        good = False
-                        why.append('flag set at line %s on a path that does not store the timestamp: the call reports a change that did not happen' % l2)
-                for sb2, l2 in store_blocks:
-                    if not (sb2 in F or any(cb.dominates(x, sb2) for x in F) or cb.must_pass([sb2], F, rets)):
-                        good = False
-                        why.append('timestamp stored at line %s on a path that does not set the flag: a change is not reported' % l2)
-                if not set_blocks or not store_blocks:
-                    good = False
-                    why.append('and_modify closure has no flag write or no store')
-                ctx.ob('C04.R', key, good, site(cb),
-                       'and_modify closure sets the flag exactly where it stores the timestamp' if good else '; '.join(why))
-        ctx.floor('C04.R', name + ' closures writing the flag', n_sites, 2)
+                    cstores.append((b2, s2['cs']))
+            if cb.argc == 1:     # FnOnce() -> V handed to or_insert_with: returning is storing
+                cstores.append((0, cb.line))
+            groups.append((cb, csets, cstores, cdef.rsplit('::', 1)[1]))
+        for gb, gsets, gstores, gname in groups:
+            S = [b for b, _l in gstores]
+            F = [b for b, _l in gsets]
+            rets = gb.return_blocks()
+            sites_total += len(gstores)
+            for b, l in gsets:
+                if not (b in S or any(gb.dominates(x, b) for x in S) or (S and gb.must_pass([b], S, rets))):
+                    problems.append('flag set at line %s (%s) on a path that does not store the incoming timestamp: the call reports a change that did not happen' % (l, gname))
+            for b, l in gstores:
+                if not (b in F or any(gb.dominates(x, b) for x in F) or (F and gb.must_pass([b], F, rets))):
+                    problems.append('incoming timestamp stored at line %s (%s) on a path that does not set the flag: a change is not reported' % (l, gname))
+        if len(inits) != 1:
+            problems.append('flag has %d constant-false initialisations (expected 1)' % len(inits))
+        ctx.ob('C04.R', name + '|flag-iff-store', not problems and sites_total >= 1, site(body),
+               'the change flag is set exactly where the incoming timestamp is stored (%d store sites)' % sites_total if not problems and sites_total >= 1
+               else ('; '.join(problems[:3]) or 'no store site of the incoming timestamp found (fail closed)'))
 
 
 def check(ctx):
